@@ -19,7 +19,8 @@ from harness.core import (Verdict, tlc_model, tlc_judge, run_driver, run_tlc, se
 RES_Q = ['Ra1', 'Ra2', 'Rx', 'Ry', 'Rr', 'Rar', 'Rax', 'Raa']
 REM_Q = ['a', 'a:1', 'a:*', 'x:1', '*', 'r', 'zz', 'y:1 a:2']
 ILI_Q = ['f1', 'f2']
-RES_T = list(universe.RESOURCES)
+# Rf10 carries lexicon f:1 in another representation (other frame ids): one per history
+RES_T = [r for r in universe.RESOURCES if r != 'Rf10']
 REM_T = REM_Q + ['*:1', 'a*', 'ab', 'u:2 r:1', 'a:2', 'y', 'x', '*:1.0+b', 'a x:*']
 ILI_T = ['f1', 'f2', 'f3']
 
